@@ -9,7 +9,6 @@ def check(ctx: Ctx) -> None:
     K.r_two_phase(ctx, "R06.1")
     K.r_lookup_table(ctx, "R06.2")
     K.r_who_cancel(ctx, "R06.3")
-    S.r_registry_who(ctx, "R03.1")
     ctx.rep.rule("R06.4", "the state -> exception mapping of cancel() is only as good as the registries: a task that has observed its "
                           "CancelledError is filed as cancelled before any suspension step or user code (life-cycle typestate), so a second "
                           "cancel(id) meets AlreadyCancelled instead of delivering another CancelledError")
